@@ -25,6 +25,17 @@ R19.10 where a slot converter takes an entry apart, RO(index=, occupation=)
        old format is built from the index
 R19.11 Slot/Node.__init__ convert each kind (cores, gpus) under tests on that
        kind only (presence of the entries decided, other tests open)
+R19.12 a slot converter hands its input list back unconverted only under
+       tests on the whole list (emptiness, all()/any(), a flag set by a loop
+       over all slots, a list of one): a test on one slot (`slots[0]`, the
+       variable of the loop the return sits in, a helper which looks at one
+       element) does not decide for the others
+R19.13 a handler of the serializer which tries the failed primitive again
+       another way (fallback) catches at least what the handler around that
+       retry gives up on.  Decided by agreement of the two handlers inside the
+       package: what dill really raises is out of reach (external, C code)
+R19.2  also runs a loop over a constant table of (modes, attribute, ..) rows
+       row by row (VerifyModel._explore)
 """
 
 import ast
@@ -3449,7 +3460,10 @@ def run(prog, rep, tier):
         'attribute (finite domain per schema type); the slot converters put '
         'each part of an entry (by name or by position) where it belongs; '
         'Slot/Node.__init__ convert cores and gpus independently of each '
-        'other.')
+        'other; a slot converter returns its input list as it is only when '
+        'a test on the whole list says so; the handler of serialize_obj '
+        'which provides the by-reference fallback is as broad as the '
+        'handler which gives up on that fallback.')
     rep.undecided = ('equality of values after a round trip through '
         'as_dict()/constructor (radical.utils TypedDict is trusted); '
         'pickling of arbitrary callables; numeric conversions (float()) of '
@@ -3468,6 +3482,11 @@ def run(prog, rep, tier):
         'module); `> 0` and truthiness are the same test on them',
         'the pair spelling of a resource entry lists the RO schema keys in '
         'schema order (index, occupation), as the Slot._schema comment says',
+        'a slot list may mix old and new slots (both converters test the '
+        'format slot by slot)',
+        'what the handler around the retry of a primitive catches is what '
+        'the function regards as a failure of that primitive (the exception '
+        'types dill raises are not visible to the analysis)',
     ]
     r19_1(prog, rep)
     r19_8(prog, rep)
